@@ -464,7 +464,7 @@ def setup():
     rc_all = 0
     for crate in ("core", "engine"):
         cdir = os.path.join(ROOT, "harness", crate)
-        shutil.copyfile(REPO + "/Cargo.lock", os.path.join(cdir, "Cargo.lock"))
+        shutil.copyfile(vdriver.repo_lock(), os.path.join(cdir, "Cargo.lock"))
     # 1. the reference geometry against naive ray walking (native unit test of harness/common/geo.rs)
     env = dict(ENV)
     env["RUSTUP_TOOLCHAIN"] = "nightly"
